@@ -3,6 +3,7 @@ import importlib
 
 MODULES = [
     "externals",
+    "utils",
     "reduction",
     "queues",
     "process_executor",
